@@ -14,6 +14,7 @@ DOC = {
                    'move_copy/move_rename check-mkdir-copy-remove chains with every failure propagated, linux_reflink backup/overwrite/restore, '
                    'run_script counting only successes, error discipline over dedupe.rs/reflink.rs/lock.rs, and the temporary being a sibling.',
     'rules': {
+        'C05.M': __import__('fcverif.rules.common', fromlist=['MANDATORY_TEXT']).MANDATORY_TEXT,
         'C05.R1': 'safe_remove: rename(path->tmp)? dominates the callback; every path from the callback\'s Err edge to a return passes rename(tmp->path) and returns Err; remove(tmp) only on the Ok edge; path itself is never removed',
         'C05.R2': 'FsCommand::symlink/hardlink are called only inside closures passed to safe_remove',
         'C05.R3': 'move_copy: check_can_rename? -> mkdirs? -> unsafe_copy? -> remove(source)?, each only after the previous succeeded',
@@ -42,6 +43,8 @@ def run(ctx):
     r7(ctx, lib)
     r8(ctx, lib)
     r9(ctx, lib)
+    from .common import run_mandatory
+    run_mandatory(ctx, 'C05')
 
 
 def role(body, op, tmp_rx=r'FsCommand::temp_file$'):
